@@ -114,12 +114,20 @@ InvDelivered == Quiet => \A i \in DOMAIN conn : FailsOf(i, TRUE) = {}
 InvNoSpurious == \A i \in DOMAIN conn : NDeliv(i) <= 1
 
 (* ---- alphabets ------------------------------------------------------------*)
-Dims == {"verb", "accept", "charset", "range", "ctype", "cenc", "clen",
-         "body"}
-Deviations(c) == Cardinality({d \in Dims : c[d] # ValidReq[d]})
+(* built constructively (TLC re-evaluates a substituted alphabet in every   *)
+(* state; filtering the 294 912 classes each time is too slow)             *)
+Around(b) ==
+     {[b EXCEPT !.verb = v] : v \in Verbs}
+  \cup {[b EXCEPT !.accept = v] : v \in HdrVals}
+  \cup {[b EXCEPT !.charset = v] : v \in HdrVals}
+  \cup {[b EXCEPT !.range = v] : v \in RangeVals}
+  \cup {[b EXCEPT !.ctype = v] : v \in HdrVals}
+  \cup {[b EXCEPT !.cenc = v] : v \in HdrVals}
+  \cup {[b EXCEPT !.clen = v] : v \in CLens}
+  \cup {[b EXCEPT !.body = v] : v \in Bodies}
 AllRequests == Requests
-UpTo1 == {c \in Requests : Deviations(c) <= 1}
-UpTo2 == {c \in Requests : Deviations(c) <= 2}
+UpTo1 == Around(ValidReq)                      \* <= 1 deviation from valid
+UpTo2 == UNION {Around(c) : c \in UpTo1}       \* <= 2 deviations
 (* one representative per exit of the pipeline (smaller sequence alphabet) *)
 Exits == {ValidReq,
           [ValidReq EXCEPT !.verb = "known"],
